@@ -3,7 +3,7 @@
    result, so serialization cannot fail and equal results give equal trees and equal text; the
    text itself (serde_json's printer) is compared, not modelled (DESIGN.md 11). *)
 From NF Require Import Base Nom Types Layout Value V9 Ipfix Parser Export Common Json.
-From NF Require Import MiscFacts RunFacts.
+From NF Require Import MiscFacts RunFacts JsonRead JsonFacts.
 Open Scope string_scope.
 Open Scope list_scope.
 
@@ -52,3 +52,28 @@ Theorem C16_error_bytes : forall e b,
   json_elem (PErr e b) = JObj [("Error", JObj [("error", json_nferr e); ("remaining", jbytes b)])].
 Proof. reflexivity. Qed.
 Print Assumptions C16_error_bytes.
+
+(* well-formed text: the printed text of every result element is accepted by the JSON reader of
+   Model/JsonRead.v (a grammar-directed reader: literals, integers, strings with the escapes the
+   printer uses, arrays, objects), which consumes ALL of it and returns the tree back -- names as
+   strings, marker leaves as one-member objects.  So the text is well formed, and it determines
+   the tree: two results with equal text have equal (plain) trees. *)
+Theorem C16_wellformed : forall puf allow s x r es,
+  parse_bytes puf allow s x = Some r -> In es r ->
+  read_json (print_json (json_elem (fst es))) = Some (plain (json_elem (fst es))).
+Proof. intros puf allow s x r es _ _. apply read_print. Qed.
+Print Assumptions C16_wellformed.
+
+Theorem C16_text_faithful : forall j1 j2, print_json j1 = print_json j2 -> plain j1 = plain j2.
+Proof.
+  intros j1 j2 H. pose proof (read_print j1) as H1. pose proof (read_print j2) as H2.
+  rewrite H in H1. rewrite H1 in H2. now inversion H2.
+Qed.
+Print Assumptions C16_text_faithful.
+
+(* the reader is not vacuous: it rejects text that is not JSON *)
+Example C16_reader_rejects :
+  read_json (str_bytes "{""a"":1,}") = None /\ read_json (str_bytes "[1 2]") = None /\
+  read_json (str_bytes "{""a"":1}x") = None /\ read_json (str_bytes """abc") = None /\
+  read_json (str_bytes "{""a"":[1,{""b"":null}],""c"":""x\\u0001""}") <> None.
+Proof. vm_compute. repeat split; discriminate. Qed.
